@@ -114,6 +114,21 @@ def check(ctx: Ctx) -> str:
     sf2.body = [s_ for s_ in sf2.body if not (isinstance(s_, ast.If) and ast.unparse(s_.test) == "self.environment.is_async")]
     ok, diff = body_same(sf2, tpl.methods["_get_default_module_async"])
     ctx.check(ok, "_get_default_module~async", "environment:Template._get_default_module_async", "differs from _get_default_module", f"default module construction differs between modes: {diff}", f"src/jinja2/environment.py:{sf.lineno}")
+    # run-time objects with a sync and an async call form: the sync form dispatches on
+    # environment.is_async first; after that guard both forms are the same code
+    for cname, s, a, guard in (("BlockReference", "__call__", "_async_call", "self._context.environment.is_async"), ("Macro", "_invoke", "_async_invoke", "self._environment.is_async")):
+        ci = repo.cls(f"runtime:{cname}")
+        sf = ci.methods[s]
+        sf2 = ast.parse(ast.unparse(sf)).body[0]
+        guards = [s_ for s_ in sf2.body if isinstance(s_, ast.If) and ast.unparse(s_.test) == guard]
+        ctx.check(len(guards) == 1 and f"self.{a}(" in ast.unparse(guards[0]), f"{cname}.{s}:dispatch", f"runtime:{cname}.{s}", "async dispatch", f"{cname}.{s} must hand over to {a} when the environment is async", f"src/jinja2/runtime.py:{sf.lineno}")
+        sf2.body = [s_ for s_ in sf2.body if s_ not in guards]
+        if cname == "Macro":
+            # the two forms are written differently (`rv = Markup(rv); return rv` vs
+            # `return Markup(rv)`): their equivalence is the capture-site rule C15.R6 / C16.R1
+            continue
+        ok, diff = body_same(sf2, ci.methods[a])
+        ctx.check(ok, f"{cname}.{s}~{a}", f"runtime:{cname}.{a}", f"differs from {s}", f"{cname}.{a} is not {cname}.{s} under erasure of the async decoration: {diff}", f"src/jinja2/runtime.py:{ci.methods[a].lineno}")
 
     ctx.rule("R4", "overrides keep the async dispatch: a Template subclass overriding render / generate tests environment.is_async and runs the async form (or calls super())")
     n = 0
